@@ -92,9 +92,13 @@ def run(tier, seed):
              {"op": "edit", "ts": "complete", "kind": "list"}, {"op": "edit", "ts": "standard", "kind": "numpy"},
              {"op": "edit", "ts": "complete", "kind": "series"}, {"op": "edit", "ts": "complete", "kind": "frame"},
              {"op": "algebra", "ts": "standard", "type": "Date", "kind": "add"}, {"op": "create_type", "ts": "standard"},
-             {"op": "sampled", "ts": "complete"}, {"op": "list", "ts": "complete"}, {"op": "long", "ts": "complete", "pos": [3, 700, 1400]}]
+             {"op": "sampled", "ts": "complete"}, {"op": "list", "ts": "complete"}, {"op": "long", "ts": "complete", "pos": [3, 700, 1400]},
+             {"op": "create_many", "ts": "standard", "n": 150},
+             {"op": "numpy", "ts": "standard", "vals": [1.0, 2.0, 3.0], "dtype": "auto"},
+             {"op": "pylist", "ts": "standard", "vals": ["1.5", "2.5"]},
+             {"op": "infer", "ts": "standard", "recipe": {"values": [["float", 1.0], ["float", 2.0]], "dtype": "float64", "index": "default", "name": None}}]
     jobs.append(({"history": fixed, "probes": PROBES}, 1))
-    jobs.append(({"history": list(reversed(fixed)), "probes": PROBES}, "random"))
+    jobs.append(({"history": list(reversed(fixed[:-4])) + fixed[-4:], "probes": PROBES}, "random"))
     for i in range(nproc):
         jobs.append(({"history": gen_history(rng, rng.choice([3, 8, 15])), "probes": PROBES}, rng.choice([0, 1, 2, 3, "random"])))
     with ThreadPoolExecutor(max_workers=16) as ex:
@@ -117,6 +121,11 @@ def run(tier, seed):
                     continue     # the explicit sampling helper draws from numpy's global generator by design
                 fails.append({"property": "C10", "signature": "global-state:" + ch.split(":")[0],
                               "what": "API call %s changed process-global state: %s" % (op["op"], ch), "op": op, "hashseed": hs})
+            if op["op"] in ("numpy", "pylist", "infer", "detect", "cast") and ent.get("err") in ("NotImplementedError",) and \
+                    any(o["op"] == "create_many" for o in spec["history"]):
+                fails.append({"property": "C10", "signature": "call-fails-after-other-types-were-created",
+                              "what": "%s raised %s after the session created many types of its own" % (op["op"], ent["err"]),
+                              "op": op, "hashseed": hs})
             if op["op"] == "edit" and ent.get("err"):
                 fails.append({"property": "C10", "signature": "stale-after-edit",
                               "what": "after an in-place edit of the same container the same typeset answered from memory: %s" % ent["err"],
